@@ -39,7 +39,17 @@ def draw_dir(rng, depth=0, budget=None):
             # fractions occur in different folders
             mtime = 1_600_000_000 + rng.choice([0, 0, 1, 2, 86400, rng.randint(0, 10_000_000)]) \
                 + rng.choice([0.0, 0.5, 0.25, 0.123])
-            out[name] = ("f", size, mtime)
+            if rng.random() < 0.04:
+                mtime = rng.choice([0.0, 0.5, 86400.0])  # the epoch itself / shortly after
+            plain = [k for k, v in out.items() if v[0] == "f" and len(v) == 3]
+            if plain and rng.random() < 0.08:
+                # a second directory entry for an existing file (hard link): it is a file
+                # of its own as far as a directory listing is concerned
+                tgt = rng.choice(plain)
+                out[name] = ("f", out[tgt][1], out[tgt][2], tgt)
+                out[tgt] = out[tgt] + (None,)  # (marks the link target; not changed in place)
+            else:
+                out[name] = ("f", size, mtime)
     return out
 
 
@@ -50,10 +60,15 @@ def materialise(root: str, spec: dict):
         if ent[0] == "d":
             os.mkdir(p)
             materialise(os.path.join(root, name), ent[1])
+        elif len(ent) > 3 and ent[3] is not None:
+            continue  # hard link: made below, when its target exists
         else:
             with open(p, "wb") as f:
                 f.truncate(ent[1])
             os.utime(p, (ent[2], ent[2]))
+    for name, ent in spec.items():
+        if ent[0] == "f" and len(ent) > 3 and ent[3] is not None:
+            os.link(os.fsencode(os.path.join(root, ent[3])), os.fsencode(os.path.join(root, name)))
 
 
 class DirOrder:
@@ -253,7 +268,8 @@ def fs_case(base_seed, index, tier, nt):
         def collect(sp, base):
             for name, ent in sp.items():
                 if ent[0] == "f":
-                    files.append((base + [name], ent))
+                    if len(ent) == 3:  # (hard-linked files share size and mtime: skipped)
+                        files.append((base + [name], ent))
                 else:
                     collect(ent[1], base + [name])
 
